@@ -23,8 +23,13 @@ fn main() -> ExitCode {
             ..Config::default()
         });
         let strategy = rhistory();
-        let histories: Vec<(usize, RHistory)> =
+        let mut histories: Vec<(usize, RHistory)> =
             (0..count).map(|k| (k, strategy.new_tree(&mut runner).expect("tree").current())).collect();
+        if count >= 24 && std::env::var_os("VERIF_GEN_LIGHT").is_none() {
+            let k = count / 2;
+            let h = histories[k].1.clone();
+            histories[k].1 = e2_genstage::very_wide(h, 66 + (env_seed() as usize * 7 + count) % 35);
+        }
         let result = std::panic::catch_unwind(|| emit(out, &histories, &exclude));
         return match result {
             Ok(()) => ExitCode::SUCCESS,
